@@ -204,7 +204,8 @@ Theorem C17_source_box_pin :
   Gen_attr.gen_box_pin_suffix = Some box_pin_suffix
   /\ Gen_attr.gen_path_to_string_idents = true
   /\ Gen_attr.gen_tail_async_block = true
-  /\ Gen_attr.gen_tail_helper_call = true.
+  /\ Gen_attr.gen_tail_helper_call = true
+  /\ Gen_attr.gen_detection_ignores_return_type = true.
 Proof. exact source_box_pin. Qed.
 Print Assumptions C17_source_box_pin.
 
@@ -212,3 +213,12 @@ Theorem C17_box_pin_qualification_irrelevant : forall pre k,
   kind_of_tail box_pin_suffix (pre ++ (sBox :: sPin :: nil)) k = k.
 Proof. exact kind_of_tail_qualified. Qed.
 Print Assumptions C17_box_pin_qualification_irrelevant.
+
+(** ... and the declared return type is not consulted (last conjunct of C17_source_box_pin: instrument_precise tries
+    AsyncInfo::from_fn on every non-const fn, and from_fn reads `sig.asyncness` and the block only), so a boxed future spelled
+    `Pin<Box<dyn Future<..>>>`, `BoxFut<'a, T>` (a type alias), an alias of an alias, or `Self::Fut` (an associated type of a
+    trait impl) is instrumented the same way.  The corpus terms pass the return type as written to [kind_of_fn]. *)
+Theorem C17_return_type_spelling_irrelevant : forall suffix callee ret ret' k,
+  kind_of_fn suffix callee ret k = kind_of_fn suffix callee ret' k.
+Proof. exact kind_of_fn_ret_irrelevant. Qed.
+Print Assumptions C17_return_type_spelling_irrelevant.
